@@ -77,6 +77,8 @@ type Run struct {
 // Features of a conversation, for labels and non-triviality rules.
 type Features struct {
 	Reordered     bool // some flight was captured with segments out of order
+	DeepReorder   bool // a segment was captured more than 256 segments behind its place
+	BucketMate    bool // UDP flow constructed to share a flow table bucket with an earlier UDP flow
 	Retransmitted bool // an exact retransmission was captured
 	Resegmented   bool // a retransmission with different boundaries was captured
 	LateRexmit    bool // a retransmission was captured after the peer had already answered
@@ -274,6 +276,8 @@ type Stats struct {
 	Conversations, TCP, UDP, IPv6 int
 	Packets                       int
 	Reordered, Retransmitted      int // conversations
+	DeepReorder                   int
+	BucketMates                   int
 	Resegmented, LateRexmit       int
 	SeqWrap, HalfClose, HsRexmit  int
 	SpanningCaptures              int   // conversations with packets in >= 2 capture files
@@ -319,6 +323,8 @@ func (s *Scenario) Stats() Stats {
 			return 0
 		}
 		st.Reordered += b2i(c.Feat.Reordered)
+		st.DeepReorder += b2i(c.Feat.DeepReorder)
+		st.BucketMates += b2i(c.Feat.BucketMate)
 		st.Retransmitted += b2i(c.Feat.Retransmitted || c.Feat.Resegmented)
 		st.Resegmented += b2i(c.Feat.Resegmented)
 		st.LateRexmit += b2i(c.Feat.LateRexmit)
